@@ -151,7 +151,7 @@ static void build_seeds_and_fields() {
     auto F = [&](const std::string &seed, size_t off, int w, bool le, const std::string &nm) { if(off != (size_t)-1) g_fields.push_back({seed, off, w, le, nm}); };
     F("smf1", 8, 2, false, "SMF format"); F("smf1", 10, 2, false, "SMF ntrks"); F("smf1", 12, 2, false, "SMF division"); F("smf1", 18, 4, false, "MTrk[0] length");
     { const Bytes &s = seed_by_name("smf1"); size_t p = find_sub(s, "MTrk", 22); F("smf1", p + 4, 4, false, "MTrk[1] length"); }
-    F("rmi", 4, 4, true, "RIFF size"); F("rmi", 16, 4, true, "RIFF data size"); F("rmi", 20 + 10, 2, false, "RMI ntrks");
+    F("rmi", 4, 4, true, "RIFF size"); F("rmi", 16, 4, true, "RIFF data size"); F("rmi", 20 + 10, 2, false, "RMI ntrks"); F("rmi", 20 + 8, 2, false, "RMI format"); F("rmi", 20 + 12, 2, false, "RMI division"); F("rmi", 20 + 4, 4, false, "RMI MThd length"); F("rmi", 20 + 18, 4, false, "RMI MTrk[0] length");
     F("mus", 4, 2, true, "MUS scoreLen"); F("mus", 6, 2, true, "MUS scoreStart"); F("mus", 8, 2, true, "MUS channels"); F("mus", 10, 2, true, "MUS secChannels"); F("mus", 12, 2, true, "MUS instrCnt");
     { const Bytes &s = seed_by_name("xmi"); F("xmi", 4, 4, false, "XMI FORM length"); size_t p = find_sub(s, "INFO"); F("xmi", p + 4, 4, false, "XMI INFO length"); F("xmi", p + 8, 2, true, "XMI track count");
       p = find_sub(s, "CAT "); F("xmi", p + 4, 4, false, "XMI CAT length"); p = find_sub(s, "FORM", p); F("xmi", p + 4, 4, false, "XMI song FORM length");
